@@ -2,6 +2,7 @@ package checks
 
 import (
 	"fmt"
+	"math"
 	"os"
 	"strings"
 
@@ -171,6 +172,8 @@ func C01Configs(thorough bool) []*world.Config {
 	add(world.IntCfg(2, []int{1, 2, 4}, []interface{}{map[string]int(nil), map[string]int{}}, map[string]int{}, M, "none"))
 	add(world.Int64Cfg(2, []int64{-8, -3, 0, 2, 4, 1 << 40}, B, "none"))
 	add(world.Uint64Cfg(2, []uint64{0, 1, 2, 4, 1<<53 + 1, 1 << 63}, B, "none"))
+	add(world.Int64Cfg(2, []int64{math.MinInt64 + 3, -4, 0, 6, math.MaxInt64 - 3}, M, "none"))
+	add(world.IntCfg(4, []int{math.MinInt64 + 1, -8, 0, 12, math.MaxInt64}, []interface{}{"a"}, "", B, "none"))
 	add(world.Wide(world.UintCfg(2, u(1, 5), 1, B, "none")))
 	add(world.Int32Cfg(2, []int32{-2, 9, 10, 100, 4, 16}, B, "none"))
 	add(world.Uint8Cfg(2, []uint8{2, 10, 100, 9, 16, 200}, M, "none"))
